@@ -5,7 +5,8 @@
      filt    [ppt]                residual of out = ifft(fft(in) * ifftshift(H)) per polarisation
      energy  [excess_ppm]         (E_out / E_in - 1) in ppm, must be <= 5000
      bragg   [num, den, got_ppm]  |H(f_Bragg)|^2 in ppm against the lattice value num/den
-     route   [ppt]                two specification routes of the same grating: relative difference of H
+     route   [ppt]                two specification routes of the same grating: relative difference of H; also: the same call after
+                                  another sampling configuration vs a freshly imported library instance (history independence)
      shape   [same]                                                                                  *)
 EXTENDS Integers, Sequences, TLC, Json, IOUtils
 Trace == ndJsonDeserialize(IOEnv.IN_FILE)
